@@ -483,6 +483,17 @@ func (obj *Package) Define(creator func(args List) Object, doc *FuncDoc, aux ...
 	return &fi
 }
 
+// undefineCalls makes the calls already compiled to the named function, which
+// share the lambda registered for it, raise undefined-function again.
+func (obj *Package) undefineCalls(name string) {
+	if xlam := obj.lambdas[name]; xlam != nil {
+		xlam.Doc = &FuncDoc{Name: name, Args: []*DocArg{}}
+		xlam.Forms = List{Undefined(name)}
+		xlam.Closure = nil
+		xlam.Macro = false
+	}
+}
+
 // forwardCalls makes calls compiled before the named function was defined,
 // which CompileList bound to a placeholder lambda, call the function created
 // by creator instead. It returns true if the name was only a placeholder.
@@ -577,10 +588,12 @@ func (obj *Package) Undefine(name string) {
 	obj.mu.Lock()
 	if obj.funcs != nil {
 		delete(obj.funcs, name)
+		obj.undefineCalls(name)
 		for _, u := range obj.Users {
 			u.mu.Lock()
 			if xf := u.funcs[name]; xf != nil && xf.Pkg == obj {
 				delete(u.funcs, name)
+				u.undefineCalls(name)
 			}
 			u.mu.Unlock()
 		}
@@ -956,6 +969,16 @@ func (obj *Package) DefLambda(name string, lam *Lambda, fc func(args List) Objec
 		xlam.Forms = lam.Forms
 		xlam.Closure = lam.Closure
 		xlam.Macro = lam.Macro
+		// Calls compiled from now on share the registered lambda with the
+		// calls compiled earlier so the next redefinition reaches all of them.
+		create := fc
+		fc = func(args List) Object {
+			f := create(args)
+			if d, ok := f.(*Dynamic); ok && d.Self == Caller(lam) {
+				d.Self = xlam
+			}
+			return f
+		}
 	} else {
 		obj.lambdas[name] = lam
 	}
